@@ -214,6 +214,15 @@ func TestVerif_C09_Retry(t *testing.T) {
 		expR := c.Get("r").Int()
 		outcomes := c09Sets(c.Get("outcomes"))
 		hazard := c.Get("hazard").Bool()
+		// the engine marks the inputs whose calls are recorded for trace
+		// validation (all of them in the quick tier, a sample in the thorough
+		// tier, where every input is still compared with the specification's sets)
+		traced := !c.Has("trace") || c.Get("trace").Bool()
+		emit := func(ev map[string]interface{}) {
+			if traced {
+				tr.Emit(ev)
+			}
+		}
 		inKey := fmt.Sprintf("members=%s;req=%d", strings.Trim(strings.ReplaceAll(fmt.Sprint(labels), " ", "."), "[]"), req)
 
 		// address assignments
@@ -248,7 +257,7 @@ func TestVerif_C09_Retry(t *testing.T) {
 				}
 
 				// ------------------------------------------------ key generation
-				tr.Reset(map[string]interface{}{"mode": "keygen", "members": labels, "req": req, "seed": fmt.Sprint(seed), "assignment": perm})
+				emit(map[string]interface{}{"event": "Reset", "mode": "keygen", "members": labels, "req": req, "seed": fmt.Sprint(seed), "assignment": perm})
 				var history []c09Value // value per retry number (node 1)
 				used := map[string]bool{}
 				firstErr := -1
@@ -260,7 +269,7 @@ func TestVerif_C09_Retry(t *testing.T) {
 						if mutated {
 							diverge("keygen", "mutated-input", "the function modified the caller's seat list", labels, nil)
 						}
-						tr.Emit(map[string]interface{}{"event": "Call", "node": node, "retry": r, "kind": v.Kind, "seats": v.Seats, "more": v.More})
+						emit(map[string]interface{}{"event": "Call", "node": node, "retry": r, "kind": v.Kind, "seats": v.Seats, "more": v.More})
 					}
 					v := vals[0]
 					history = append(history, v)
@@ -336,13 +345,13 @@ func TestVerif_C09_Retry(t *testing.T) {
 					if r > expR+3 {
 						break // (already reported as "ineligible")
 					}
-					tr.Emit(map[string]interface{}{"event": "Next"})
+					emit(map[string]interface{}{"event": "Next"})
 				}
 				// stateless: every retry number again, shuffled order
 				for _, r := range rnd.Perm(len(history)) {
 					node := 1 + rnd.Intn(2)
 					v, _ := c09Eval(EvaluateRetryParticipantsForKeyGeneration, labels, addr, seed, uint(r), uint(req))
-					tr.Emit(map[string]interface{}{"event": "Reeval", "node": node, "retry": r, "kind": v.Kind, "seats": v.Seats, "more": v.More})
+					emit(map[string]interface{}{"event": "Reeval", "node": node, "retry": r, "kind": v.Kind, "seats": v.Seats, "more": v.More})
 					if !v.equal(history[r]) {
 						diverge("keygen", "stateless", fmt.Sprintf("evaluating retry %d again gave a different result", r), history[r], v)
 					}
@@ -358,7 +367,7 @@ func TestVerif_C09_Retry(t *testing.T) {
 				}
 
 				// ------------------------------------------------ signing
-				tr.Reset(map[string]interface{}{"mode": "signing", "members": labels, "req": req, "seed": fmt.Sprint(seed), "assignment": perm})
+				emit(map[string]interface{}{"event": "Reset", "mode": "signing", "members": labels, "req": req, "seed": fmt.Sprint(seed), "assignment": perm})
 				var shist []c09Value
 				distinctOutcomes := map[string]bool{}
 				for r := 0; r <= signRetries; r++ {
@@ -369,7 +378,7 @@ func TestVerif_C09_Retry(t *testing.T) {
 						if mutated {
 							diverge("signing", "mutated-input", "the function modified the caller's seat list", labels, nil)
 						}
-						tr.Emit(map[string]interface{}{"event": "Call", "node": node, "retry": r, "kind": v.Kind, "seats": v.Seats, "more": v.More})
+						emit(map[string]interface{}{"event": "Call", "node": node, "retry": r, "kind": v.Kind, "seats": v.Seats, "more": v.More})
 					}
 					v := vals[0]
 					shist = append(shist, v)
@@ -410,13 +419,13 @@ func TestVerif_C09_Retry(t *testing.T) {
 						distinctOutcomes[c09SetKey(accepted)] = true
 					}
 					if r < signRetries {
-						tr.Emit(map[string]interface{}{"event": "Next"})
+						emit(map[string]interface{}{"event": "Next"})
 					}
 				}
 				for _, r := range rnd.Perm(len(shist)) {
 					node := 1 + rnd.Intn(2)
 					v, _ := c09Eval(EvaluateRetryParticipantsForSigning, labels, addr, seed, uint(r), uint(req))
-					tr.Emit(map[string]interface{}{"event": "Reeval", "node": node, "retry": r, "kind": v.Kind, "seats": v.Seats, "more": v.More})
+					emit(map[string]interface{}{"event": "Reeval", "node": node, "retry": r, "kind": v.Kind, "seats": v.Seats, "more": v.More})
 					if !v.equal(shist[r]) {
 						diverge("signing", "stateless", fmt.Sprintf("evaluating retry %d again gave a different result", r), shist[r], v)
 					}
